@@ -5,7 +5,7 @@ namespace Gengo.Inflect
 /-- C20 `irregular_total` (repaired code): the irregular step never panics — whatever the
     regexp's folding relation and `ToLower` do to the matched word -/
 theorem irregular_total (c : Cfg) (s : Str) : irregular c true s ≠ .panic := by
-  unfold irregular
+  unfold irregular irregular2
   split
   · simp
   · split <;> simp
